@@ -14,7 +14,7 @@ import (
 func TestMain(m *testing.M) {
 	if first := os.Getenv("VERIF_FIRST_USE"); first != "" {
 		// (subprocess of the first-use checks: nothing else may touch the library before)
-		firstUseChild(first)
+		firstUseChild(first, os.Getenv("VERIF_FIRST_USE_CONC") != "")
 		os.Exit(0)
 	}
 	code := m.Run()
